@@ -9,7 +9,7 @@ from rv import sets as S
 from rv.common import user_array, digest as _digest
 
 ALL_KINDS = ['box', 'norm1', 'norminf', 'norm2', 'sumsqr', 'pnorm', 'quad', 'absbudget',
-             'polytope', 'kl', 'entropy']
+             'polytope', 'kl', 'entropy', 'expc']
 POLY_KINDS = ['box', 'norm1', 'norminf', 'absbudget', 'polytope']
 SOC_KINDS = POLY_KINDS + ['norm2', 'sumsqr', 'quad']
 
